@@ -351,6 +351,28 @@ def check(ctx):
            o in (CANON, SORTED), unproven=o == UNKNOWN,
            detail=f"order {o}: {short(r or ())}", stmt=f"history matrix order {o[0]}")
 
+    # ... and it is each TIME POINT's position that is flattened: the mapped function
+    # ravels its own argument, the map runs over the history that was passed in
+    # (only for the map-over-time form; other layouts are judged by the order / leaf-layout
+    # obligations above and below)
+    ok_tp = None
+    if r is not None and r[0] == "call" and r[1][0] == "call" and is_call(r[1], "jax.vmap") \
+            and r[1][2] and r[1][2][0][0] == "lambda":
+        ok_tp = False
+    if ok_tp is False and r[2] == (n(h2m.params()[0]),):
+        g = r[1][2][0]
+        if g[0] == "lambda" and len(g[1]) == 1:
+            rp = [x for x in subterms(g[2]) if is_call(x, "jax.flatten_util.ravel_pytree")]
+            ok_tp = len(rp) == 1 and rp[0][2] == (n(g[1][0]),) and g[2] in (
+                ("s", rp[0], c(0)), ("proj", rp[0], 0))
+        elif g[0] in ("g", "fn"):
+            ok_tp = None
+    if ok_tp is not None:
+        ctx.ob("C12.R1", h2m, "_history_to_matrix maps over the history's time points and "
+                              "flattens each time point's own position (row t = "
+                              "ravel_pytree(position at t)[0])", ok_tp, detail=short(r or (), 160),
+               stmt="history rows " + pretty(r or ())[:120])
+    sib = {}
     for fname, stat, axis_kw, axis_want in (("tune_inv_mm_diag", "var", "axis", c(0)),
                                             ("tune_inv_mm_full", "cov", "rowvar", c(False))):
         tfi = repo.func(f"liesel.goose.mm.{fname}")
@@ -382,6 +404,29 @@ def check(ctx):
                               f"diagonal (keeps the matrix positive definite, moves no entry "
                               f"to another coordinate)", ok_reg, detail=short(rr_ or (), 160),
                stmt=f"{fname} regulariser")
+        # what the two modes must agree on (sibling cross-check below)
+        reg_c = None
+        if ok_reg:
+            reg_c = ([x for x in (rr_[2], rr_[3]) if x[0] == "c"][0][1] if rr_[0] == "op"
+                     else rr_[2][0][1])
+        if stat_calls:
+            sc = stat_calls[0]
+            if stat == "var":
+                dd = kw(sc, "ddof", 4)
+                norm = "n-1" if dd == c(1) else ("n" if dd in (None, c(0)) else "?")
+            else:
+                dd, bias = kw(sc, "ddof", 4), kw(sc, "bias", 3)
+                norm = ("n-1" if dd in (None, c(1)) and bias in (None, c(False))
+                        else ("n" if dd in (None, c(0)) and bias == c(True) or dd == c(0) else "?"))
+            sib[fname] = (reg_c, norm)
+    if len(sib) == 2:
+        (rd, nd_), (rf, nf_) = sib["tune_inv_mm_diag"], sib["tune_inv_mm_full"]
+        ctx.ob("C12.R1", repo.func("liesel.goose.mm.tune_inv_mm_diag"),
+               "the diagonal tuner computes the diagonal of what the dense tuner computes: "
+               "same normalisation of the sample (co)variance (both n-1) and the same "
+               "regularising constant", rd is not None and rd == rf and nd_ == nf_ == "n-1",
+               detail=f"diag: +{rd}, 1/({nd_}); dense: +{rf}, 1/({nf_})",
+               stmt=f"tuner agreement diag +{rd} /{nd_} dense +{rf} /{nf_}")
     lb = layout_breaks(r) if r is not None else []
     ctx.ob("C12.R1", h2m, "inside a leaf the history matrix keeps the row-major element "
                           "order of ravel_pytree (no axis permutation before a "
@@ -427,6 +472,9 @@ def check(ctx):
 
     # ---- shared mechanisms: the neighbour's rules run as obligations of this property
     ctx.include("C07", "C12.R4", only=['C07.R4'])
+    ctx.include("C03", "C12.R4", only=['C03.R4', 'C03.R6'])
     ctx.rule("R4", "shared mechanisms, run as obligations of this property: the engine calls "
                    "the tuner after EVERY adaptation epoch (guard exactly is_adaptation) and "
-                   "hands it the recorded history whenever a kernel needs it (C07.R4).")
+                   "hands it the recorded history whenever a kernel needs it (C07.R4); positions are "
+                   "plain dicts (sorted-key pytrees), so the sampler's coordinate order is the one "
+                   "the flattened history has (C03.R4/R6).")
